@@ -18,6 +18,7 @@ package simmongo
 
 import (
 	"bytes"
+	"encoding/json"
 	"fmt"
 	"math"
 	"sort"
@@ -104,7 +105,13 @@ func canonDoc(d bson.D, coll string, skip func(coll, field string) bool) string 
 	if err != nil {
 		return "!" + err.Error()
 	}
-	return string(b)
+	// Go maps inside stored documents were encoded in random key order: compare order-insensitively
+	var x interface{}
+	if json.Unmarshal(b, &x) != nil {
+		return string(b)
+	}
+	c, _ := json.Marshal(x)
+	return string(c)
 }
 
 // Find returns copies of the documents of a collection matching filter, in insertion order.
